@@ -3,7 +3,7 @@
    in Proofs/, with Print Assumptions beneath. *)
 From UV Require Import Lib.Base Model.Idna Model.Wtf8 Spec.Utf8Spec Spec.PunycodeSpec
   Proofs.IdnaBits Proofs.IdnaUtf8Proofs Proofs.Wtf8Proofs Proofs.IdnaWriterProofs
-  Proofs.IdnaPunycodeProofs.
+  Proofs.IdnaPunycodeProofs Proofs.IdnaRoundtripProofs.
 Local Open Scope N_scope.
 
 (* ---- UTF-8 ---------------------------------------------------------- *)
@@ -20,6 +20,17 @@ Proof.
   destruct S as [S _]. unfold UINT_MAX. lia.
 Qed.
 Print Assumptions C18_utf8_decode_sound_partial.
+
+(* the hypothesis is satisfiable: the euro sign and the last scalar value *)
+Example C18_utf8_wf_example :
+  utf8_wf [226; 130; 172] 8364 /\ utf8_wf [244; 143; 191; 191] 1114111 /\
+  utf8_decode1 ([226; 130; 172] ++ [65]) = (8364, [65]).
+Proof.
+  split; [|split].
+  - change 8364 with (v3 226 130 172). apply wf_E1_EC; unfold rng; lia.
+  - change 1114111 with (v4 244 143 191 191). apply wf_F4; unfold rng; lia.
+  - vm_compute. reflexivity.
+Qed.
 
 (* The full statement "accepts exactly the inputs that start with a well-formed
    sequence" ([utf8_decode_iff_wellformed utf8_decode1]) does not hold for the
@@ -87,6 +98,21 @@ Theorem C18_toascii_label_iff_nonascii :
 Proof. exact label_iff_nonascii. Qed.
 Print Assumptions C18_toascii_label_iff_nonascii.
 
+(* the hypotheses of the two IDNA theorems are satisfiable: "ma\u00f1ana" *)
+Example C18_utf8_string_example :
+  utf8_string [109; 97; 195; 177; 97; 110; 97] [109; 97; 241; 97; 110; 97] /\
+  Exists (fun c => 128 <= c) [109; 97; 241; 97; 110; 97].
+Proof.
+  split.
+  - apply (us_cons [109] 109); [apply wf_00_7F; unfold rng; lia|].
+    apply (us_cons [97] 97); [apply wf_00_7F; unfold rng; lia|].
+    apply (us_cons [195; 177] 241); [change 241 with (v2 195 177); apply wf_C2_DF; unfold rng; lia|].
+    apply (us_cons [97] 97); [apply wf_00_7F; unfold rng; lia|].
+    apply (us_cons [110] 110); [apply wf_00_7F; unfold rng; lia|].
+    apply (us_cons [97] 97 [] []); [apply wf_00_7F; unfold rng; lia|constructor].
+  - right. right. left. lia.
+Qed.
+
 (* On well-formed UTF-8 the conversion either reports the 32-bit overflow
    (UV_E2BIG; no wrapped value is ever used) or produces, label by label,
    exactly "xn--" followed by the RFC 3492 section 6.3 encoding
@@ -116,9 +142,8 @@ Print Assumptions C18_toascii_is_rfc3492.
 
 (* The transcription of RFC 3492 reproduces the RFC's own samples (section 7.1
    (B) Chinese simplified, (I) Russian, (L) 3<nen>B<gumi><kinpachi><sensei>)
-   and the section 6.2 decoder inverts the encoder on them.  The general
-   statement spec_decode (spec_encode l) = Some l is not proved (see
-   C18_punycode_roundtrip_partial below and notes/C18_idna.md). *)
+   and the section 6.2 decoder inverts the encoder on them (the general
+   statement is C18_punycode_roundtrip below). *)
 Example C18_rfc3492_samples :
   spec_encode [20182; 20204; 20026; 20160; 20040; 19981; 35828; 20013; 25991]
     = [105; 104; 113; 119; 99; 114; 98; 52; 99; 118; 56; 97; 56; 100; 113; 103; 48; 53; 54; 112; 113; 106; 121; 101] /\
@@ -131,6 +156,13 @@ Example C18_rfc3492_samples :
   label_full [109; 97; 195; 177; 97; 110; 97]
     = (0%Z, [120; 110; 45; 45] ++ spec_encode [109; 97; 241; 97; 110; 97]).
 Proof. repeat split; vm_compute; reflexivity. Qed.
+
+(* The transcribed RFC 3492 section 6.2 decoder inverts the transcribed section
+   6.3 encoder on every list of code points (no side condition): what
+   uv__idna_toascii writes after "xn--" decodes back to the label. *)
+Theorem C18_punycode_roundtrip : forall l, spec_decode (spec_encode l) = Some l.
+Proof. exact punycode_roundtrip. Qed.
+Print Assumptions C18_punycode_roundtrip.
 
 (* ---- UTF-16 <-> WTF-8 --------------------------------------------------- *)
 
